@@ -39,6 +39,7 @@ type Reply struct {
 	Stack   string  `json:"stack"`   // stack of the recovered panic
 	Millis  float64 `json:"millis"`  // wall time inside the worker
 	HeapMB  float64 `json:"heap_mb"` // heap in use after the call (before GC)
+	AllocMB float64 `json:"alloc_mb"` // bytes allocated during the call (deterministic measure of work)
 	Stage   string  `json:"stage"`   // last stage reached (for non-triviality)
 	Decls   int     `json:"decls"`   // declarations parsed
 }
@@ -100,6 +101,8 @@ func Serve(h Handler) {
 
 func runGuarded(h Handler, req Request) (rep Reply) {
 	start := time.Now()
+	var ms0 runtime.MemStats
+	runtime.ReadMemStats(&ms0)
 	defer func() {
 		if r := recover(); r != nil {
 			rep = Reply{Panic: fmt.Sprint(r), Stack: string(debug.Stack())}
@@ -108,6 +111,7 @@ func runGuarded(h Handler, req Request) (rep Reply) {
 		var ms runtime.MemStats
 		runtime.ReadMemStats(&ms)
 		rep.HeapMB = float64(ms.HeapAlloc) / (1 << 20)
+		rep.AllocMB = float64(ms.TotalAlloc-ms0.TotalAlloc) / (1 << 20)
 	}()
 	return h(req)
 }
